@@ -15,7 +15,7 @@ PARTIAL = [
     "support of a Cox-de Boor function without a span index (coxDeBoor_support, _zero_set, _support_by_multiplicity): for sorted knots, every degree / index and EVERY number u, N_{i,p}(u) >= 0 and N_{i,p}(u) != 0 iff U_i <= u < U_{i+p+1} and (U_i < u or U_{i+p} <= u) - proved in full; A2.5 at the last knot as coded (basisFunDersOne_last_knot: order+1 zeros for every accepted index and every order, also order > degree - the guard returns first) is proved, and that it is NOT the left-limit value / derivatives there (basisFunDersOne_last_knot_differs: A2.5 gives 0, A2.4 gives 1, row 0 of A2.3 on the last span gives 1; witness with derivatives 0,0,0 against 1,2,2); the exact oracle judges A2.5 only for u below the domain end, at the last knot only the correspondence stream bdersone (model = code) covers it - recorded observation, supersedes the last clause of the A2.5 item above",
 ]
 PARTIAL.append("F-03b (open, recorded): for a knot vector whose END knot is repeated more than p+1 times, A2.4 (basis_function_one) at u = the last knot returns 1 for the LAST function (the special case of The NURBS Book, `i == m-p-1 and u == U[m]`), which has empty support there, and 0 for the last function with non-empty support, whose Cox-de Boor left limit (= the A2.2 entry on the span the repaired search finds) is 1; the A2.4 sentence above ('the last function at the last knot returns 1 ... proved equal to the A2.2 entry of the last span for end-clamped vectors') is about end-clamped vectors with EXACTLY p+1 equal end knots (KnotsOk: non-empty last span), where the last function is the one with the value 1; for end multiplicity > p+1 A2.4 has no theorem, it is judged by the exact oracle of the stream empty-last-span (kind span-end, every function index) and classified as F-03b; unclamped vectors with U_{n-1} = U_n (end-of-domain multiplicity <= p) are judged too and A2.4 is right there")
-PARTIAL.append("knot vectors with an empty last domain span (F-01b, repaired): the span statements are proved for the literal models of the REPAIRED searches (findSpanLinearR / findSpanBinR, Model/SpanR.lean: first loop, then the step back while the span is empty; tolerance shortcut + step back, then the unchanged bisection) - findSpanR_eq_unrepaired (= the searches without step back whenever the span found is not empty, so every KnotsOk theorem transfers), findSpanLinearR_spec (every sorted knot vector with U_p < U_n, every u of the closed domain: legal NON-EMPTY span containing u, half-open below U_n, the LAST NON-EMPTY span at U_n), findSpanLinearR_unique, findSpanBinR_eq_linearR (tolerance hypothesis stated for the last non-empty span), witness findSpanR_witness_F01b; correspondence with the real functions at u = U_n too (stream empty-last-span: kind span-end now has a model line `span linr` / `span binr` besides the oracle; ordinary knot vectors: stream ordinary-r, kinds span-linr / span-binr). NOT lifted: the whole-domain composition of the search with A2.4 (basisFunOne_eq_basisFuns_domain keeps its end-clamped hypothesis); the ops `span lin` / `span bin` (findSpanLinear / findSpanBin, no step back) still answer ERR when the span they find is empty")
+PARTIAL.append("knot vectors with an empty last domain span (F-01b, repaired): the span statements are proved for the literal models of the REPAIRED searches (findSpanLinearR / findSpanBinR, Model/SpanR.lean: first loop, then the step back while the span is empty; tolerance shortcut + step back, then the unchanged bisection) - findSpanR_eq_unrepaired (= the searches without step back whenever the span found is not empty, so every KnotsOk theorem transfers), findSpanLinearR_spec (every sorted knot vector with U_p < U_n, every u of the closed domain: legal NON-EMPTY span containing u, half-open below U_n, the LAST NON-EMPTY span at U_n), findSpanLinearR_unique, findSpanBinR_eq_linearR (tolerance hypothesis stated for the last non-empty span), witness findSpanR_witness_F01b; correspondence with the real functions at u = U_n too (stream empty-last-span: kind span-end now has a model line `span linr` / `span binr` besides the oracle; ordinary knot vectors: stream ordinary-r, kinds span-linr / span-binr). NOT lifted: the whole-domain composition of the search with A2.4 (basisFunOne_eq_basisFuns_domain keeps its end-clamped hypothesis); the ops `span lin` / `span bin` (findSpanLinear / findSpanBin, no step back) still answer ERR when the span they find is empty; the consumers of the repaired linear search are lifted in C01 / C02 (point evaluation, evaluate_list, sampled grids, derivatives of curves and surfaces through findSpanLinearR: Model/SpanRGrid.lean, theorems *_repaired_* there), all resting on findSpanLinearR_spec")
 ASSUMPTIONS = ["distinct knots are further apart than the tolerances 1e-5 (binary search) / 1e-7 (multiplicity), except in the tolerance-probe stream"]
 
 
